@@ -1028,6 +1028,24 @@ func Cluster(eco string, r *rand.Rand) []string {
 			out = append(out, base+sep+w+tl, base+sep+w+"d5e6f"+tl, base+sep+w+"ffe01"+tl, base+sep+w[:6]+tl, base+sep+w+"d"+tl, base+sep+w[:5]+tl)
 		}
 	}
+	// number-parser quirk family: spellings that Go's strconv functions read as numbers although a version grammar
+	// does not (a sign, a base prefix, an exponent, digit separators), in the last component and after every tail
+	// separator, next to the plain numbers they would be confused with
+	if chance(r, 1, 6) {
+		n := pick(r, "1", "2", "10", "0", "5")
+		quirks := []string{"+" + n, "-" + n, "0x" + n, n + "e1", n + "_0", "0b1", "0o" + n, "+0" + n, n + "e0", "0X" + n, "1_000", n + ".0e0"}
+		d := append([]string{}, c...)
+		for _, q := range quirks {
+			if chance(r, 1, 2) {
+				d[len(d)-1] = q
+				out = append(out, strings.Join(d, "."))
+			}
+			if chance(r, 1, 2) {
+				sep := pick(r, "-", "+", "~", "_", ".", "-r", "_p", ".post", "-rc")
+				out = append(out, base+sep+q, base+sep+n, base+sep+decInc(n))
+			}
+		}
+	}
 	// maven: the unique snapshots of this base as a repository lists them, next to the literal -SNAPSHOT
 	if eco == "maven" && chance(r, 1, 5) {
 		out = append(out, base+"-SNAPSHOT", base+"-snapshot")
